@@ -442,6 +442,8 @@ func (f *Frame) specEq(a, b Val) string {
 
 func (f *Frame) specQuant(n SQuant, env *specEnv) Val {
 	e := f.e
+	// expand defined (non-opaque) spec functions at the syntax level, so that the index analysis below sees through them
+	n.Body = f.expandMacros(n.Body, 0)
 	ne := *env
 	ne.bound = map[string]Val{}
 	for k, v := range env.bound {
@@ -473,9 +475,22 @@ func (f *Frame) specQuant(n SQuant, env *specEnv) Val {
 		binders = append(binders, fmt.Sprintf("(%s %s)", vn, e.tt().sortOf(gt)))
 		ne.bound[v.Name] = Val{T: vn, Typ: gt}
 		if v.Type == "int" || v.Type == "mathint" {
-			if base, ok := soleIndexBase(n.Body, v.Name); ok {
-				bv := f.specTerm(base, env)
-				if sv, ok := f.view(bv, env); ok && sv.off != "0" {
+			if base, inOld, ok := soleIndexBase(n.Body, v.Name); ok {
+				benv := env
+				if inOld {
+					oe := *env
+					oe.st = env.old
+					oe.inOld = true
+					benv = &oe
+				}
+				// the base may mention binders introduced earlier in the same quantifier
+				be2 := *benv
+				be2.bound = ne.bound
+				be2.seqs = ne.seqs
+				be2.absIdx = ne.absIdx
+				benv = &be2
+				bv := f.specTerm(base, benv)
+				if sv, ok := f.view(bv, benv); ok && sv.off != "0" {
 					if ne.absIdx == nil {
 						ne.absIdx = map[string]*absIndex{}
 					} else {
@@ -915,11 +930,13 @@ func simpleIndex(x SExpr) (string, string, bool) {
 
 // soleIndexBase: if every use of bound variable v as (part of) an index expression in body is a simple index
 // into one and the same base expression, return that base.
-func soleIndexBase(body SExpr, v string) (SExpr, bool) {
+func soleIndexBase(body SExpr, v string) (SExpr, bool, bool) {
 	var base SExpr
 	baseKey := ""
 	ok := true
 	found := false
+	oldDepth := 0
+	baseOld := false
 	var mentions func(x SExpr) bool
 	mentions = func(x SExpr) bool {
 		m := false
@@ -931,8 +948,16 @@ func soleIndexBase(body SExpr, v string) (SExpr, bool) {
 		})
 		return m
 	}
-	walkSpec(body, func(x SExpr) bool {
+	var walk func(x SExpr)
+	visit := func(x SExpr) bool {
 		switch n := x.(type) {
+		case SCall:
+			if n.Fn == "old" && len(n.Args) == 1 {
+				oldDepth++
+				walk(n.Args[0])
+				oldDepth--
+				return false
+			}
 		case SQuant:
 			for _, bv := range n.Vars {
 				if bv.Name == v {
@@ -952,8 +977,9 @@ func soleIndexBase(body SExpr, v string) (SExpr, bool) {
 				k := fmt.Sprintf("%#v", n.X)
 				if baseKey == "" {
 					baseKey, base = k, n.X
+					baseOld = oldDepth > 0
 					found = true
-				} else if baseKey != k {
+				} else if baseKey != k || baseOld != (oldDepth > 0) {
 					ok = false
 				}
 			}
@@ -963,9 +989,10 @@ func soleIndexBase(body SExpr, v string) (SExpr, bool) {
 			}
 		}
 		return true
-	})
-	// the base must not be inside old() differently etc.: compare by structure only
-	return base, ok && found
+	}
+	walk = func(x SExpr) { walkSpec(x, visit) }
+	walk(body)
+	return base, baseOld, ok && found
 }
 
 func walkSpec(x SExpr, fn func(SExpr) bool) {
@@ -1060,6 +1087,38 @@ func (f *Frame) specOpaqueDefined(sf *SpecFunc, n SCall, env *specEnv, rt types.
 		e.declFun("sp_"+sf.Name, sorts, rs)
 		app := fmt.Sprintf("(sp_%s %s)", sf.Name, strings.Join(args, " "))
 		e.assert(fmt.Sprintf("(forall (%s) (! (= %s %s) :pattern (%s)))", strings.Join(binders, " "), app, body.T, app))
+		// footprint lemma (a consequence of the definition by congruence): the value only depends on the heap
+		// locations the body reads
+		if len(reads) > 0 {
+			fps := footprint(body.T)
+			var b2, args2, conds []string
+			ren := func(t string) string {
+				for _, r := range reads {
+					t = strings.ReplaceAll(t, r.v, r.v+"_2")
+				}
+				return t
+			}
+			for _, p := range sf.Params {
+				pt := f.resolveType(p.Type)
+				if p.Type == "int" || p.Type == "mathint" || pt == nil {
+					pt = mathInt
+				}
+				b2 = append(b2, fmt.Sprintf("(pv!%s %s)", p.Name, e.tt().sortOf(pt)))
+				args2 = append(args2, "pv!"+p.Name)
+			}
+			argsB := append([]string{}, args2...)
+			for _, r := range reads {
+				b2 = append(b2, fmt.Sprintf("(%s %s)", r.v, r.sort), fmt.Sprintf("(%s_2 %s)", r.v, r.sort))
+				args2 = append(args2, r.v)
+				argsB = append(argsB, r.v+"_2")
+			}
+			for _, fp := range fps {
+				conds = append(conds, fmt.Sprintf("(= %s %s)", fp, ren(fp)))
+			}
+			appA := fmt.Sprintf("(sp_%s %s)", sf.Name, strings.Join(args2, " "))
+			appB := fmt.Sprintf("(sp_%s %s)", sf.Name, strings.Join(argsB, " "))
+			e.assert(fmt.Sprintf("(forall (%s) (! (=> %s (= %s %s)) :pattern (%s %s)))", strings.Join(b2, " "), and(conds...), appA, appB, appA, appB))
+		}
 	}
 	var args []string
 	for i := range sf.Params {
@@ -1070,4 +1129,134 @@ func (f *Frame) specOpaqueDefined(sf *SpecFunc, n SCall, env *specEnv, rt types.
 		args = append(args, e.getHeap(env.st, r.name, r.sort))
 	}
 	return Val{T: fmt.Sprintf("(sp_%s %s)", sf.Name, strings.Join(args, " ")), Typ: rt}
+}
+
+// footprint returns the distinct outermost heap reads "(select hv!X t)" occurring in a term.
+func footprint(term string) []string {
+	var out []string
+	seen := map[string]bool{}
+	for i := 0; i < len(term); i++ {
+		if strings.HasPrefix(term[i:], "(select hv!") {
+			depth := 0
+			j := i
+			for ; j < len(term); j++ {
+				if term[j] == '(' {
+					depth++
+				} else if term[j] == ')' {
+					depth--
+					if depth == 0 {
+						break
+					}
+				}
+			}
+			sub := term[i : j+1]
+			if !seen[sub] {
+				seen[sub] = true
+				out = append(out, sub)
+			}
+		}
+	}
+	return out
+}
+
+var macroCounter int
+
+// expandMacros replaces calls of defined, non-opaque spec functions by their bodies (capture-avoiding).
+func (f *Frame) expandMacros(x SExpr, depth int) SExpr {
+	if x == nil || depth > 12 {
+		return x
+	}
+	rec := func(y SExpr) SExpr { return f.expandMacros(y, depth) }
+	switch n := x.(type) {
+	case SUn:
+		return SUn{n.Op, rec(n.X)}
+	case SBin:
+		return SBin{n.Op, rec(n.L), rec(n.R)}
+	case SCond:
+		return SCond{rec(n.C), rec(n.A), rec(n.B)}
+	case SQuant:
+		return SQuant{n.Forall, n.Vars, rec(n.Body)}
+	case SSel:
+		return SSel{rec(n.X), n.Sel}
+	case SIndex:
+		return SIndex{rec(n.X), rec(n.I)}
+	case SSlice:
+		var lo, hi SExpr
+		if n.Lo != nil {
+			lo = rec(n.Lo)
+		}
+		if n.Hi != nil {
+			hi = rec(n.Hi)
+		}
+		return SSlice{rec(n.X), lo, hi}
+	case SCall:
+		var args []SExpr
+		for _, a := range n.Args {
+			args = append(args, rec(a))
+		}
+		sf, ok := f.e.P.CS.Specs[n.Fn]
+		if ok && sf.Body != nil && !sf.Opaque && len(args) == len(sf.Params) {
+			sub := map[string]SExpr{}
+			for i, p := range sf.Params {
+				sub[p.Name] = args[i]
+			}
+			return f.expandMacros(substSpec(sf.Body, sub), depth+1)
+		}
+		return SCall{n.Fn, args}
+	}
+	return x
+}
+
+// substSpec substitutes identifiers; binders inside the substituted body are renamed apart.
+func substSpec(x SExpr, sub map[string]SExpr) SExpr {
+	if x == nil {
+		return nil
+	}
+	rec := func(y SExpr) SExpr { return substSpec(y, sub) }
+	switch n := x.(type) {
+	case SIdent:
+		if r, ok := sub[n.Name]; ok {
+			return r
+		}
+		return n
+	case SUn:
+		return SUn{n.Op, rec(n.X)}
+	case SBin:
+		return SBin{n.Op, rec(n.L), rec(n.R)}
+	case SCond:
+		return SCond{rec(n.C), rec(n.A), rec(n.B)}
+	case SQuant:
+		ns := map[string]SExpr{}
+		for k, v := range sub {
+			ns[k] = v
+		}
+		var vars []SVar
+		for _, v := range n.Vars {
+			macroCounter++
+			nn := fmt.Sprintf("%s_m%d", v.Name, macroCounter)
+			vars = append(vars, SVar{nn, v.Type})
+			ns[v.Name] = SIdent{nn}
+		}
+		return SQuant{n.Forall, vars, substSpec(n.Body, ns)}
+	case SSel:
+		return SSel{rec(n.X), n.Sel}
+	case SIndex:
+		return SIndex{rec(n.X), rec(n.I)}
+	case SSlice:
+		var lo, hi SExpr
+		if n.Lo != nil {
+			lo = rec(n.Lo)
+		}
+		if n.Hi != nil {
+			hi = rec(n.Hi)
+		}
+		return SSlice{rec(n.X), lo, hi}
+	case SCall:
+		var args []SExpr
+		for _, a := range n.Args {
+			args = append(args, rec(a))
+		}
+		return SCall{n.Fn, args}
+	}
+	return x
 }
